@@ -343,7 +343,7 @@ func init() {
 			"On*/To* acceptance matrix per name; marker value = id, name and every family-specific property of the struct; non-trivial = a vocabulary name",
 		Assumptions: []string{"the vocabulary table in c07.go is the independent ground truth (written from the ActivityStreams vocabulary)", "reading D3 for generic and unknown names"},
 		Bound: func(string) string {
-			return "complete: ~61 names x 17 channels x 2 hook configurations + membership and helper matrices (same in both tiers)"
+			return "complete: ~61 names x 17 channels x 2 hook configurations + membership and helper matrices (same in both tiers); families added after round 5: DESIGN.md 8.11"
 		},
 		Shards: 8,
 		Run:    c07Run,
